@@ -21,7 +21,7 @@ RULE_TEXT = ('runs = full product spawn site (all site x phase placements - the 
              'seeded random cases with several sites, several slow children and random timeout histories. '
              'Non-trivial = a child that outlives or nearly outlives its limit (behaviour != fast) was spawned; '
              'distinct = (site, phase, behaviour, timeout configuration, N).')
-REACH_PROBES = ['timeout_set_by_a_suite_instruction_from_a_case_symbol', 'killed_at_deadline', 'finished_just_below', 'hang_as_specified', 'ignores_sigterm_killed',
+REACH_PROBES = ['timeout_in_a_case_expected_to_fail', 'mode_act', 'mode_act_timeout_in_cleanup', 'timeout_set_by_a_suite_instruction_from_a_case_symbol', 'killed_at_deadline', 'finished_just_below', 'hang_as_specified', 'ignores_sigterm_killed',
                 'cleanup_after_timeout', 'timeout_in_assert_is_hard_error', 'timeout_zero', 'set_after_use_not_applied',
                 'none_lifts_limit', 'atc_killed', 'text_source_killed', 'matcher_killed', 'transformer_killed',
                 'stdin_program_killed', 'multi_slow']
@@ -186,6 +186,9 @@ def build(seed, tier, sites, cfg, n_value, g, sweep=False):
             'conf': conf, 'act': act, 'files': files, 'sites': site_recs, 'sweep': sweep,
             'layout': _layout(phases, first, timeout_lines), 'procs': {}, 'keep': (not sweep) and g.random() < 0.25}
     plan['after_case_in_suite'] = kernel.stream(seed, 'suite').random() < (0.08 if sweep else 0.2)
+    plan['act_flag'] = kernel.stream(seed, 'actmode').random() < (0.1 if sweep else 0.2)
+    # the case may be marked as expected to fail: a timeout is an error all the same (and a run without one is XPASS)
+    plan['status_fail'] = kernel.stream(seed, 'status').random() < 0.15
     _behaviours(plan)
     return plan
 
@@ -232,6 +235,12 @@ def limit_at_end_of_act(plan):
     return t
 
 
+def in_act_mode(plan):
+    """--act: [before-assert] and [assert] are not executed; the identifier of an error is the first line of stderr, and a
+    run that completes exits with the exit code of the action (0 here) and prints what the action printed (nothing)"""
+    return bool(plan.get('act_flag')) and not plan.get('keep') and not in_suite_mode(plan)
+
+
 def in_suite_mode(plan):
     """The case runs as the second case of a suite whose file supplies `timeout = @[TSUITE]@` at the start of
     [before-assert]; the case defines TSUITE as the value that is in force there anyway, the case before it as 599."""
@@ -240,9 +249,11 @@ def in_suite_mode(plan):
 
 def render(plan):
     lines = []
-    if plan['conf']:
+    if plan['conf'] or plan.get('status_fail'):
         lines.append('[conf]')
         lines.extend(plan['conf'])
+        if plan.get('status_fail'):
+            lines.append('status = FAIL')
     for ph in ('setup', 'act', 'before-assert', 'assert', 'cleanup'):
         lines.append('[%s]' % ph)
         if ph == 'act':
@@ -347,7 +358,7 @@ def simulate(plan):
         return False
 
     stop = False
-    for ph in ('setup', 'act', 'before-assert', 'assert'):
+    for ph in ('setup', 'act') + (() if in_act_mode(plan) else ('before-assert', 'assert')):
         if run_phase(ph):
             stop = True
             break
@@ -401,12 +412,16 @@ def execute(plan, scratch):
                 if 't.case' in line and line.strip().split():
                     ident = line.strip().split()[-1]
             res['stdout'] = ident + '\n'
-            res['exit'] = {'PASS': 0, 'HARD_ERROR': 128, 'FAIL': 32, 'INTERNAL_ERROR': 129, 'VALIDATION_ERROR': 65,
+            res['exit'] = {'PASS': 0, 'XPASS': 33, 'XFAIL': 33, 'HARD_ERROR': 128, 'FAIL': 32, 'INTERNAL_ERROR': 129, 'VALIDATION_ERROR': 65,
                            'SYNTAX_ERROR': 65}.get(ident, res['exit'])
         else:
-            res = host.run_cli(sim, (['--keep'] if plan.get('keep') else []) + ['t.case'])
+            res = host.run_cli(sim, (['--keep'] if plan.get('keep') else []) + (['--act'] if in_act_mode(plan) else []) +
+                               ['t.case'])
         leftover = w.tmp_entries() if not plan.get('keep') else []
         digest = sim.digest()
+    if in_act_mode(plan):
+        first = (res['stderr'].split('\n') or [''])[0]
+        res['stdout'] = 'PASS\n' if (res['exit'] == 0 and res['stdout'] == '' and not first) else first + '\n'
     if plan.get('keep'):
         res['stdout'] = (res['stderr'].split('\n') or [''])[0] + '\n'
     spawns = [{'tag': s['tag'], 'n': s['n'], 'waits': list(s['waits']), 'killed': s['killed'],
@@ -445,6 +460,12 @@ def execute(plan, scratch):
             pr['finished_just_below'] = 1
         if r['T'] is None and r['behaviour'] in ('above', 'ten_times') and s['reaped'] and not s['killed']:
             pr['none_lifts_limit'] = 1
+    if plan.get('status_fail') and x['stalled']:
+        pr['timeout_in_a_case_expected_to_fail'] = 1
+    if in_act_mode(plan):
+        pr['mode_act'] = 1
+        if x['stalled'] and x['stalled_phase'] == 'cleanup':
+            pr['mode_act_timeout_in_cleanup'] = 1
     if suite_mode:
         pr['timeout_set_by_a_suite_instruction_from_a_case_symbol'] = 1
     if res.get('hang') and x['hang']:
@@ -535,8 +556,9 @@ def oracle(plan, hist):
                                                   'phase': x['stalled_phase']},
                 {'identifier': ident, 'exit': res['exit']})
     else:
-        if ident != 'PASS':
-            bad('outcome.pass_when_every_child_finishes_in_time', 'PASS',
+        want_ident = 'XPASS' if (plan.get('status_fail') and not in_act_mode(plan)) else 'PASS'
+        if ident != want_ident:
+            bad('outcome.pass_when_every_child_finishes_in_time', want_ident,
                 {'identifier': ident, 'stderr': res['stderr'][:300]})
     if hist['leftover']:
         bad('sandbox_removed_after_timeout', [], hist['leftover'])
